@@ -466,3 +466,44 @@ func FuzzKey(f *testing.F) {
 		}
 	})
 }
+
+// TestRegressLeafCounts: leaf counts around powers of two and multiples of 64 (any internal batching of the leaf
+// keys when the root key is computed must not show), full last leaf and partial last leaf, against the oracle;
+// two different contents of the same leaf count never share a key
+func TestRegressLeafCounts(t *testing.T) {
+	for _, L := range []uint32{64, 100} {
+		keys := map[string]int{}
+		for _, n := range []int{15, 16, 17, 31, 32, 33, 63, 64, 65, 127, 128, 129, 191, 192, 193, 255, 256, 257, 511, 512, 513} {
+			for _, tail := range []int{0, 1, int(L) - 1} {
+				for variant := uint64(0); variant < 2; variant++ {
+					size := n*int(L) + tail
+					if tail == 0 && variant == 1 && n%64 != 0 {
+						continue
+					}
+					content := hx.Expand(uint64(n)*31+variant, size, 0, 0)
+					be := memstore.NewBackend("blob")
+					c := putCfg{Flushes: 1 + n%5}
+					if n%2 == 0 {
+						c.Chunks = []int{int(L) * 3, 7}
+					}
+					fs, err := newFs(be.View("w"), L, c)
+					if err != nil {
+						t.Fatal(err)
+					}
+					res, err := fs.Put(context.Background(), source(content, c))
+					if err != nil {
+						t.Fatalf("Put of %d leaves + %d bytes at L=%d: %v", n, tail, L, err)
+					}
+					if err := checkPut(be, res, L, content); err != nil {
+						t.Fatalf("%d leaves + %d bytes at L=%d: %v", n, tail, L, err)
+					}
+					if prev, dup := keys[res.Key.String()]; dup {
+						t.Fatalf("contents of %d and %d bytes share the key %s", prev, size, res.Key)
+					}
+					keys[res.Key.String()] = size
+					stats.Case(fmt.Sprintf("pinned leaf count L=%d n=%d tail=%d", L, n, tail), true, func() interface{} { return size })
+				}
+			}
+		}
+	}
+}
